@@ -98,10 +98,19 @@ def build_harness(name, src, cfg="rel", hooks=False, shim=False, defs=(), libs=(
         flags += SHIM_FLAGS + ["-DVF_SHIM=1"]
     flags += list(defs)
     key = hashlib.sha256((repo_hash() + " ".join(flags) + src + " ".join(extra_src) + " ".join(libs)).encode()).hexdigest()[:16]
-    exe = os.path.join(d, name)
+    # one binary per (sources, flags) key: checks running concurrently against different trees never share a binary
+    exe = os.path.join(d, "%s.%s" % (name, key))
     stamp = exe + ".stamp"
     if os.path.exists(exe) and os.path.exists(stamp) and open(stamp).read() == key:
         return exe
+    now = time.time()
+    for f in os.listdir(d):     # prune binaries of other trees that have not been used for a while
+        fp = os.path.join(d, f)
+        if f.startswith(name + ".") and now - os.path.getmtime(fp) > 3 * 3600:
+            try:
+                os.remove(fp)
+            except OSError:
+                pass
     srcs = [os.path.join(HARNESS, s) for s in (src,) + tuple(extra_src)]
     cmd = [cc] + flags + srcs + ["-o", exe, "-lpthread"] + list(libs)
     t0 = time.time()
